@@ -13,6 +13,7 @@ import (
 	"strings"
 	"sync"
 	"time"
+	"verifharness/internal/netx"
 
 	"github.com/ipfs/go-cid"
 	"github.com/ipld/go-ipld-prime"
@@ -145,7 +146,7 @@ type headServer struct {
 
 func newHeadServer() *headServer {
 	hs := &headServer{}
-	hs.srv = httptest.NewServer(http.HandlerFunc(func(w http.ResponseWriter, r *http.Request) {
+	hs.srv = netx.NewServer(http.HandlerFunc(func(w http.ResponseWriter, r *http.Request) {
 		hs.mu.Lock()
 		hs.log = append(hs.log, r.URL.Path)
 		body := hs.body
